@@ -85,7 +85,7 @@ func (p *parser) Parse(objDump string) ([]Syscall, error) {
 
 		// Find the start of a function.
 		if strings.HasPrefix(line, functionMarker) {
-			function = line[5:]
+			function = strings.TrimSpace(line[len(functionMarker):])
 			instructions = instructions[:0]
 			continue
 		}
@@ -214,6 +214,9 @@ func parseX86_64(p *parser, line, caller string, instructions []string) (*Syscal
 		if inst := lastInstruction(instructions); inst != "" {
 			if strings.Contains(inst, "XORL AX, AX") {
 				fields := strings.Fields(line)
+				if len(fields) < 4 {
+					return nil, fmt.Errorf("unexpected format of line '%v'", strings.TrimSpace(line))
+				}
 				return &Syscall{
 					Location: fields[0],
 					Function: strings.Join(fields[3:], " "),
@@ -231,6 +234,9 @@ func parseX86_64(p *parser, line, caller string, instructions []string) (*Syscal
 	}
 
 	fields := strings.Fields(line)
+	if len(fields) < 4 {
+		return nil, fmt.Errorf("unexpected format of line '%v'", strings.TrimSpace(line))
+	}
 	s := &Syscall{
 		Location: fields[0],
 		Function: strings.Join(fields[3:], " "),
